@@ -36,6 +36,45 @@ def gen(run):
     return ex, small, rnd
 
 
+def unreadable_stream(run, exe, only=None):
+    """a caller who is not root and cannot read ld.so.preload but may write its directory: enable / disable must fail and leave the file
+    alone (an unreadable file is not an absent one).  Returns list of (action, content, rc, after)."""
+    import shutil, subprocess, tempfile
+    from vlib.core import BUILD
+    launch = os.path.join(BUILD, "harness", "tool_launch")
+    base = tempfile.mkdtemp(prefix="sv-C18-nonroot-", dir=os.path.dirname(run.scratch))
+    bad = []
+    try:
+        os.chmod(base, 0o755)
+        ctl = os.path.join(base, "snoopyctl")
+        shutil.copy(exe, ctl)
+        os.chmod(ctl, 0o755)
+        w = os.path.join(base, "w")
+        os.makedirs(os.path.join(w, "lib"))
+        open(os.path.join(w, pl.P_MAIN.decode()), "wb").close()
+        for pth in (w, os.path.join(w, "lib"), os.path.join(w, pl.P_MAIN.decode())):
+            os.chown(pth, 65534, 65534)
+        cases = only or [(a, c) for a in ("enable", "disable") for c in (b"/lib/foreign.so\n", b"# c\n/lib/a.so\n" + pl.P_MAIN + b"\n", pl.P_MAIN + b" /lib/b.so")]
+        n = 0
+        for (a, c) in cases:
+            f = os.path.join(w, "ld.so.preload")
+            for x in os.listdir(w):
+                if x.startswith("ld.so.preload"):
+                    os.unlink(os.path.join(w, x))
+            open(f, "wb").write(c)
+            os.chown(f, 0, 0)
+            os.chmod(f, 0o600)
+            p = subprocess.run([launch, "--uid", "65534", "--", ctl, a], cwd=w, stdin=subprocess.DEVNULL, stdout=subprocess.DEVNULL, stderr=subprocess.DEVNULL,
+                               env={"PATH": "/usr/bin:/bin", "SNOOPY_TEST_LD_SO_PRELOAD_PATH": "ld.so.preload", "SNOOPY_TEST_LIBSNOOPY_SO_PATH": pl.P_MAIN.decode()}, timeout=60)
+            after = open(f, "rb").read() if os.path.exists(f) else None
+            n += 1
+            if after != c or p.returncode == 0:
+                bad.append((a, c, p.returncode, after))
+        return n, bad
+    finally:
+        shutil.rmtree(base, ignore_errors=True)
+
+
 def check(run):
     run.snapshot()
     tr_preload(run)
@@ -50,6 +89,16 @@ def check(run):
     r2 = pl.evaluate(run, plain, ex, "exh", KINDS)
     nv += pl.report(run, PROP, r2, "exhaustive", plain, KINDS) if not nv else 0
     mism = r1["mismatch"] + r2["mismatch"]
+    n_unr, bad_unr = (0, [])
+    if os.geteuid() == 0:
+        n_unr, bad_unr = unreadable_stream(run, plain)
+        for (a, c, rc, after) in bad_unr[:1]:
+            run.violation("spec:C18-unreadable", "spec_violation", "snoopyctl %s run by a non-root caller on an UNREADABLE ld.so.preload (mode 0600 root) in a directory it may write: "
+                          "must fail and leave the file alone; exit status %d, content before %r, after %r" % (a, rc, c, after),
+                          {"stream": "unreadable", "failing_input": {"stream": "unreadable", "action": a, "content": pl.hexs(c)}, "rc": rc, "after": pl.hexs(after)})
+            nv += 1
+    else:
+        run.notes.append("not running as root: the unreadable-file stream (non-root caller) was skipped")
     if not ok and nv == 0:
         run.violation("proof:%s" % failed, "proof", "proof obligation no longer checks: %s | %s\n%s" % (failed, " ; ".join(n for n in run.notes if n.startswith("translator") or n.startswith("skeleton")) or "no translator note", log[-1500:]), {"theorem": failed, "coq_log": log[-3000:]})
     if mism and nv == 0:
@@ -73,7 +122,7 @@ def check(run):
                 "1..40 lines with random op sequences; non-trivial = distinct case whose content mentions libsnoopy.so" % (3 if run.tier == "quick" else 4),
         "samples": [pl.show(allc[i])[:300] for i in range(0, len(allc), max(1, len(allc) // 5))][:5],
         "distribution": {"corpus_cases": len(corp), "sanitizer_build_cases": len(s_cases), "exhaustive_cases": len(ex), "first_enable_outcomes": kinds,
-                         "spec_lines_evaluated": r1["nspec"] + r2["nspec"], "mismatches": len(mism),
+                         "unreadable_file_cases": n_unr, "spec_lines_evaluated": r1["nspec"] + r2["nspec"], "mismatches": len(mism),
                          "spec_failures": len(r1["spec_bad"]) + len(r2["spec_bad"]), "impl_faults": len(r1["faults"]) + len(r2["faults"])},
         "traces_validated_against_impl": len(allc) - len(mism),
     })
@@ -86,4 +135,16 @@ def check(run):
 
 
 def replay(run, path):
+    import json
+    rep = json.load(open(path))
+    fi = rep.get("failing_input")
+    if isinstance(fi, dict) and fi.get("stream") == "unreadable":
+        run.snapshot()
+        exe = pl.build_ctl(run, san=False)
+        n, bad = unreadable_stream(run, exe, only=[(fi["action"], pl.unhex(fi["content"]))])
+        for (a, c, rc, after) in bad:
+            print("snoopyctl %s as uid 65534 on an unreadable file: exit %d, before %r, after %r" % (a, rc, c, after))
+        print("violation reproduced" if bad else "file left alone, command failed")
+        run.cleanup()
+        return 1 if bad else 0
     return pl.replay_cases(run, PROP, path, KINDS)
